@@ -27,6 +27,12 @@ theorem all_classes_wf : ∀ c ∈ ivtClasses, ClassWF c = true := by decide +ke
 /-- the table is not empty and contains all four families (the quantifier above is not vacuous) -/
 example : ivtClasses.length > 50 ∧ (ivtClasses.map (·.family)).eraseDups.length = 4 := by decide +kernel
 
+/-- nothing leaves the theorems' domain silently: a generated class without IVT is one of the known header-less kinds
+    (mc56 "Vx" images with a BCA table, mcxc images with BCA/FCF blocks) -/
+theorem non_ivt_classes_known :
+    ∀ c ∈ allClasses, c.hasAttr .ivt_table = true ∨ c.has .Mbi_MixinBcaTable = true ∨ c.has .Mbi_MixinBca = true := by
+  decide +kernel
+
 /-! ## the IVT flag word: bit-field independence over the generated masks / shifts / `create_flags` -/
 
 theorem flags_fields (t tz sub ver ksLen : Nat) (hTz hSub hHw hw hKs ksSet hTab tab hVer hV2T v2t : Bool)
@@ -156,6 +162,19 @@ theorem total_len_sum {co : CryptoOps} {env : Env} {c : Cls} {cfg : Cfg} {signer
   · exact Mbi.total_len_sum_encrypted h hf
 
 /-! ## non-vacuity: a concrete non-trivial configuration satisfies the hypotheses (decided) -/
+
+/-- an RSA signed load-to-RAM class with HMAC and key store, a relocation table of two entries and a (fake, structurally valid)
+    certificate block of 164 bytes; `EnvOK` holds for the constant environment -/
+example : ∃ c ∈ ivtClasses, ∃ cfg : Cfg, c.family = some .signedV1 ∧ c.has .Mbi_MixinHmac = true ∧ cfgWF c cfg = true
+    ∧ (cfg.reloc.map List.length) = some 2
+    ∧ EnvOK ⟨fun _ => cfg.sigLen, fun _ => 0, fun _ => true⟩ c cfg :=
+  ⟨Mbi.exampleSignedClass, by decide +kernel, Mbi.exampleSignedCfg, by decide +kernel, by decide +kernel, by decide +kernel,
+   by decide +kernel, ⟨fun _ _ => ⟨rfl, rfl⟩, fun h => absurd h (by decide +kernel)⟩⟩
+
+/-- the encrypted class of the same family with counter IV and the image key as `dek` -/
+example : ∃ c ∈ ivtClasses, ∃ cfg : Cfg, c.family = some .encrypted ∧ cfgWF c cfg = true ∧ cfg.ctrIv.length = 16 :=
+  ⟨Mbi.exampleEncClass, by decide +kernel, { Mbi.exampleSignedCfg with ctrIv := List.replicate 16 0x11 }, by decide +kernel,
+   by decide +kernel, by decide +kernel⟩
 
 /-- a CRC XIP class with TrustZone and a 64-byte payload with custom TrustZone data -/
 example : ∃ c ∈ ivtClasses, ∃ cfg : Cfg, c.signKind = .crc ∧ cfgWF c cfg = true ∧ cfg.app.length = 61 :=
